@@ -677,6 +677,11 @@ class FileCache(ProxyValue):
         # User defined deserialization.
         return pickle_loads(data)
 
+    def get_hash(self, data: Optional[bytes] = None) -> str:
+        # The serialized form is only a file name, so it cannot stand in for the value
+        # when hashing: a value is recorded under the same hash it has as an argument.
+        return super().get_hash()
+
     def serialize(self) -> bytes:
         from redun.file import File
 
